@@ -590,6 +590,135 @@ impl CtlKind for K3 {
     }
 }
 
+// further static system-data kinds (only used by HStat)
+pub struct K4;
+pub struct K5;
+pub struct K6;
+pub struct K7;
+pub struct K8;
+const MISSING: &str = "HARNESS: a static resource is missing although the harness inserted it";
+impl CtlKind for K4 {
+    type Data<'c> = Option<Read<'c, CtlA>>;
+    const KIND: u8 = 4;
+    fn touch<'c>(d: Self::Data<'c>, _: usize) -> (Vec<u32>, Vec<u32>) {
+        (vec![d.expect(MISSING).val], vec![])
+    }
+}
+impl CtlKind for K5 {
+    type Data<'c> = Option<Write<'c, CtlB>>;
+    const KIND: u8 = 5;
+    fn touch<'c>(d: Self::Data<'c>, gid: usize) -> (Vec<u32>, Vec<u32>) {
+        let mut d = d.expect(MISSING);
+        let v = hash_step(d.val, gid, 0);
+        d.val = v;
+        (vec![], vec![v])
+    }
+}
+impl CtlKind for K6 {
+    type Data<'c> = (shred::ReadExpect<'c, CtlA>, Option<Write<'c, CtlB>>);
+    const KIND: u8 = 6;
+    fn touch<'c>(d: Self::Data<'c>, gid: usize) -> (Vec<u32>, Vec<u32>) {
+        let a = d.0.val;
+        let mut b = d.1.expect(MISSING);
+        let v = hash_step(b.val, gid, a as u64);
+        b.val = v;
+        (vec![a], vec![v])
+    }
+}
+impl CtlKind for K7 {
+    type Data<'c> = shred::WriteExpect<'c, CtlB>;
+    const KIND: u8 = 7;
+    fn touch<'c>(mut d: Self::Data<'c>, gid: usize) -> (Vec<u32>, Vec<u32>) {
+        let v = hash_step(d.val, gid, 0);
+        d.val = v;
+        (vec![], vec![v])
+    }
+}
+#[derive(shred::SystemData)]
+pub struct StatBoth<'a> {
+    pub a: Read<'a, CtlA>,
+    pub b: Write<'a, CtlB>,
+}
+impl CtlKind for K8 {
+    type Data<'c> = StatBoth<'c>;
+    const KIND: u8 = 8;
+    fn touch<'c>(mut d: Self::Data<'c>, gid: usize) -> (Vec<u32>, Vec<u32>) {
+        let a = d.a.val;
+        let v = hash_step(d.b.val, gid, a as u64);
+        d.b.val = v;
+        (vec![a], vec![v])
+    }
+}
+
+/// An ordinary system whose data is a STATIC system-data type of the library (what users write), logging and
+/// gated like every harness system.
+pub struct HStat<K> {
+    pub gid: usize,
+    pub t: u8,
+    pub ctx: Arc<Ctx>,
+    pub k: PhantomData<K>,
+}
+
+impl<'a, K: CtlKind> System<'a> for HStat<K> {
+    type SystemData = K::Data<'a>;
+
+    fn run(&mut self, d: K::Data<'a>) {
+        let ctx = &self.ctx;
+        let gid = self.gid;
+        ctx.note_addr(gid, self as *const _ as usize);
+        let logx = ctx.log_exec.load(Ordering::Relaxed);
+        if logx {
+            ctx.ev(json!({"ev":"fetch","s":gid,"th":ctx.thread()}));
+        }
+        ctx.gate(gid);
+        let must_panic = {
+            let mut ps = ctx.panic_set.lock().unwrap();
+            let hit = ps.contains(&gid);
+            if hit && ctx.panic_once.load(Ordering::Relaxed) {
+                ps.remove(&gid);
+            }
+            hit
+        };
+        if must_panic {
+            if logx {
+                ctx.ev(json!({"ev":"panic","s":gid}));
+            }
+            std::panic::panic_any(HPanic(gid));
+        }
+        let (seen, nv) = K::touch(d, gid);
+        if logx {
+            ctx.ev(json!({"ev":"finish","s":gid,"nv":nv,"seen":seen}));
+        }
+    }
+
+    fn running_time(&self) -> RunningTime {
+        rt(self.t)
+    }
+}
+
+/// `$body` with `$s` bound to `HStat<K$kind>`.
+#[macro_export]
+macro_rules! with_hstat {
+    ($kind:expr, $gid:expr, $t:expr, $ctx:expr, |$s:ident| $body:expr) => {{
+        macro_rules! mk {
+            ($k:ty) => {{
+                let $s = $crate::sys::HStat::<$k> { gid: $gid, t: $t, ctx: $ctx, k: std::marker::PhantomData };
+                $body
+            }};
+        }
+        match $kind {
+            1 => mk!($crate::sys::K1),
+            2 => mk!($crate::sys::K2),
+            3 => mk!($crate::sys::K3),
+            4 => mk!($crate::sys::K4),
+            5 => mk!($crate::sys::K5),
+            6 => mk!($crate::sys::K6),
+            7 => mk!($crate::sys::K7),
+            _ => mk!($crate::sys::K8),
+        }
+    }};
+}
+
 pub struct HCtl<K> {
     pub gid: usize,
     /// builder index of the inner dispatcher (event field `d`)
